@@ -330,7 +330,8 @@ class ThreadPool(object):
 
         # Create the threads
         for _ in range(nb_pending_tasks):
-            self.__nb_pending_task += 1
+            with self.__lock:
+                self.__nb_pending_task += 1
             self.__start_thread()
         for _ in range(nb_threads - nb_pending_tasks):
             self.__start_thread()
